@@ -64,6 +64,7 @@ def run(ctx):
             H.violation("monkeytype.encoding:type_to_json", "not-structural:%s" % infer.short(t), "two structurally equal types encode differently", {"type": r}, {"a": j, "b": j2})
         else:
             H.ok(r, nontrivial=spec_c.kind(t) not in ("Class", "Any"), sample={"type": infer.short(t), "json": j[:120]})
+    validate_t_enc(H, [t for t, _, _ in types])
     H.section("call trace round trip", "CallTraces over the fixture package's functions (module function, method, classmethod, staticmethod, read-only property, functools.wraps-decorated) with return / yield each absent, NoneType or a type",
               "6 functions x 3 x 3")
     fx = Fixture("fxc08")
@@ -90,6 +91,143 @@ def run(ctx):
     finally:
         fx.close()
     return H.result()
+
+
+GENERIC_NAME = {"List": "List", "Set": "Set", "Dict": "Dict", "DefaultDict": "DefaultDict", "Tuple": "Tuple", "TupleVar": "Tuple", "Type": "Type",
+                "Iterator": "Iterator", "Generator": "Generator", "Callable": "Callable", "Union": "Union"}
+ENC_KINDS = {"Any", "Class", "List", "Set", "Dict", "DefaultDict", "Tuple", "Type", "Iterator", "Generator", "Callable", "Union", "TD", "NamedTD"}
+HAS_ARGS = {"List", "Set", "Dict", "DefaultDict", "Tuple", "TupleVar", "Type", "Iterator", "Generator", "Union"}
+HIDDEN = {"NoneType": type(None), "NotImplementedType": type(NotImplemented), "mappingproxy": type(type.__dict__)}
+
+
+def wf_st(t):
+    """Concrete twin of T-ENC wf_st: the structural precondition of the encoder (must cover everything MonkeyType can infer)."""
+    from monkeytype.compat import is_typed_dict
+    k = spec_c.kind(t)
+    if k not in ENC_KINDS or t is None:
+        return False
+    if is_typed_dict(t):
+        return all(isinstance(n, str) and wf_st(x) for n, x in t.__annotations__.items())
+    if k in HAS_ARGS:
+        return t.__args__ != ((),) and all(wf_st(a) for a in t.__args__)
+    return True
+
+
+def encq(t):
+    from monkeytype.compat import is_typed_dict
+    k = spec_c.kind(t)
+    if is_typed_dict(t):
+        return t.__name__
+    if k == "Any":
+        return "Any"
+    if k in GENERIC_NAME:
+        return GENERIC_NAME[k]
+    return t.__qualname__
+
+
+def encodes(d, t):
+    """Concrete twin of T-ENC encodes(d, t): d is the wire form of t (written from the format description, not from the encoder)."""
+    from monkeytype.compat import is_typed_dict
+    if not (isinstance(d, dict) and d.get("module") == t.__module__ and d.get("qualname") == encq(t)):
+        return False
+    if is_typed_dict(t):
+        e = d.get("elem_types")
+        return bool(d.get("is_typed_dict")) and isinstance(e, dict) and set(e) == set(t.__annotations__) and all(encodes(e[k], t.__annotations__[k]) for k in e)
+    if "is_typed_dict" in d:
+        return False
+    k = spec_c.kind(t)
+    if ("elem_types" in d) != (k in HAS_ARGS):
+        return False
+    if k in HAS_ARGS:
+        e = d["elem_types"]
+        return e is not None and len(e) == len(t.__args__) and all(encodes(x, a) for x, a in zip(e, t.__args__))
+    return True
+
+
+def validate_t_enc(H, types):
+    """The assumed axioms of theories/enc_th.py evaluated on the real libraries (a failure is a checker defect, not a violation),
+    and the bounded twin of the proved encoder clause `encodes(type_to_dict(t), t)`."""
+    import importlib
+    import typing
+    from monkeytype.compat import is_typed_dict
+    from monkeytype.encoding import type_to_dict
+    from monkeytype.typing import make_typed_dict, field_annotations, DUMMY_TYPED_DICT_NAME, DUMMY_REQUIRED_TYPED_DICT_NAME, DUMMY_OPTIONAL_TYPED_DICT_NAME
+    H.section("T-ENC axioms vs the real typing / mypy_extensions / json",
+              "tname (generics carry `_name`), sub-inv (ctor[args] is structurally t), typing-<N> lookups, hidden builtins, TD-raw shape of make_typed_dict, "
+              "json round trip up to key order; wf_st covers every inferred type; encodes(type_to_dict(t), t) by the concrete twin of the relation",
+              "all types of the round-trip corpus")
+    for n in ("List", "Set", "Dict", "DefaultDict", "Tuple", "Type", "Iterator", "Generator", "Union", "Callable", "Any"):
+        if not hasattr(typing, n):
+            H.theory_failure("typing-" + n, "typing has no attribute", n)
+        else:
+            H.ok("typing-" + n, nontrivial=False)
+    for h, c in HIDDEN.items():
+        if c.__module__ != "builtins" or c.__qualname__ != h:
+            H.theory_failure("hidden-" + h, "module/qualname differ", (c.__module__, c.__qualname__))
+        else:
+            H.ok("hidden-" + h, nontrivial=False)
+    td = make_typed_dict(required_fields={"a": int}, optional_fields={"b": str})
+    ann = td.__annotations__
+    ok = (is_typed_dict(td) and td.__name__ == DUMMY_TYPED_DICT_NAME == td.__qualname__ and set(ann) == {"required_fields", "optional_fields"}
+          and ann["required_fields"].__name__ == DUMMY_REQUIRED_TYPED_DICT_NAME and ann["optional_fields"].__name__ == DUMMY_OPTIONAL_TYPED_DICT_NAME
+          and ann["required_fields"].__annotations__ == {"a": int} and ann["optional_fields"].__annotations__ == {"b": str}
+          and field_annotations(td) == ({"a": int}, {"b": str}) and DUMMY_REQUIRED_TYPED_DICT_NAME != DUMMY_TYPED_DICT_NAME != DUMMY_OPTIONAL_TYPED_DICT_NAME)
+    (H.ok("TD-raw", nontrivial=False) if ok else H.theory_failure("TD-raw", "make_typed_dict does not build the nested shape", repr(ann)))
+    seen = set()
+
+    def walk(t):
+        yield t
+        if is_typed_dict(t):
+            for x in t.__annotations__.values():
+                yield from walk(x)
+        elif spec_c.kind(t) in HAS_ARGS:
+            for a in t.__args__:
+                if a is not Ellipsis:
+                    yield from walk(a)
+    for top in types:
+        if not importable(top):
+            continue
+        if not wf_st(top):
+            H.theory_failure("wf_st", "an inferred / corpus type is outside the encoder's structural precondition", repr(top))
+            continue
+        for t in walk(top):
+            r = repr(t) + str(id(t) if is_typed_dict(t) else "")
+            if r in seen:
+                continue
+            seen.add(r)
+            k = spec_c.kind(t)
+            if k in GENERIC_NAME and k != "Union" and getattr(t, "_name", None) != GENERIC_NAME[k]:
+                H.theory_failure("tname-" + k, "_name differs", (repr(t), getattr(t, "_name", None)))
+            if k == "Union" and not (getattr(t, "_name", None) in (None, "Optional") and getattr(t.__origin__, "_name", None) == "Union"):
+                H.theory_failure("tname-Union", "_name / __origin__._name differ", (repr(t), getattr(t, "_name", None), getattr(t.__origin__, "_name", None)))
+            if k in HAS_ARGS and k != "TupleVar":
+                ctor = getattr(typing, GENERIC_NAME[k])
+                try:
+                    back = ctor[t.__args__ if (len(t.__args__) != 1 or k == "Tuple") else t.__args__[0]] if t.__args__ else ctor[()]
+                except Exception as e:      # noqa
+                    back = e
+                if isinstance(back, Exception) or not spec_c.tyeq(back, t):
+                    H.theory_failure("sub-inv", "ctor[args] is not structurally t", (repr(t), repr(back)))
+            if k == "Class" and not (t.__module__ == "builtins" and t.__qualname__ in HIDDEN):
+                try:
+                    o = importlib.import_module(t.__module__)
+                    for part in t.__qualname__.split("."):
+                        o = getattr(o, part)
+                except Exception as e:      # noqa
+                    o = e
+                if o is not t:
+                    H.theory_failure("importable-class", "bounded tier's importable() admits a class that lookup does not find", repr(t))
+            try:
+                d = type_to_dict(t)
+            except Exception as e:      # noqa
+                H.violation("monkeytype.encoding:type_to_dict", "encode-raises:%s" % infer.short(t), "encoder raises on a well-formed type", {"type": repr(t)}, repr(e))
+                continue
+            if json.loads(json.dumps(d, sort_keys=True)) != d:
+                H.theory_failure("json-roundtrip", "loads(dumps(d)) != d", d)
+            if not encodes(d, t):
+                H.violation("monkeytype.encoding:type_to_dict", "not-wire-form:%s" % infer.short(t), "type_to_dict(t) is not the wire form of t", {"type": repr(t)}, d)
+            else:
+                H.ok(r, nontrivial=k not in ("Class", "Any"))
 
 
 def replay(rp, ctx):
